@@ -433,6 +433,32 @@ func (ps *parser) primary() Expr {
 				ps.expect(")")
 				return &EQuant{Forall: t.s == "forallv", Var: v.s, Type: typ, Body: body}
 			}
+			if t.s == "dyn" || t.s == "isdyn" {
+				// dyn(x, T) / isdyn(x, T): the second argument is a type, read as raw text
+				x := ps.expr(0)
+				ps.expect(",")
+				start := ps.peek().pos
+				depth := 0
+				for {
+					tt := ps.peek()
+					if tt.k == tkEOF {
+						ps.fail("unterminated %s(...)", t.s)
+					}
+					if tt.k == tkOp && (tt.s == "(" || tt.s == "[") {
+						depth++
+					}
+					if tt.k == tkOp && (tt.s == ")" || tt.s == "]") {
+						if depth == 0 {
+							break
+						}
+						depth--
+					}
+					ps.p++
+				}
+				typ := strings.TrimSpace(ps.src[start:ps.peek().pos])
+				ps.expect(")")
+				return &ECall{Fun: t.s, Args: []Expr{x, &EIdent{Name: typ}}}
+			}
 			var args []Expr
 			for !ps.isOp(")") {
 				args = append(args, ps.expr(0))
